@@ -1,6 +1,6 @@
 \* Simulation over the full alphabet (two sessions, deletes, configs 10 s / 900 s /
 \* unset, invalid config, PANIC, raft-internal entries), logs up to 14 entries.
-\* Used with -simulate; EmitEdge prints every prefix, the check keeps the maximal ones.
+\* Used with -simulate file=...; the check reads the history variable of each trace.
 SPECIFICATION Spec
 CONSTANTS
     Alphabet <- AlphaAll
@@ -32,5 +32,4 @@ INVARIANTS
     ModOnlyPanicking
     ModSkippedEverywhere
     ModProgress
-ACTION_CONSTRAINT EmitEdge
 CHECK_DEADLOCK FALSE
